@@ -100,6 +100,24 @@ def build(cs, valid_only=False):
         hy['efi'] = True
         if n_efi >= 2 and rng.random() < 0.7:
             hy['mac'] = True
+    if hy.get('efi') and rng.random() < 0.35:
+        # steer the volume size so that the room between its end and the next cylinder boundary is
+        # about what the backup GPT needs (32 sectors of partition entries + 1 header sector = 16896
+        # bytes): 0, just below, exactly the entries alone, just above
+        cyl = hy.get('geometry_sectors', 32) * hy.get('geometry_heads', 64) * 512
+        if cyl >= 32768 and cyl % 2048 == 0:
+            out = h.apply({'op': 'q_write'})
+            if out.ok and isinstance(out.result, int):
+                room = rng.choice([0, 2048, 14336, 16384, 16384, 18432])
+                want = (cyl - room - out.result) % cyl          # bytes to add
+                # one more record in the root directory never needs a further sector here unless the
+                # root is full; the check does not depend on the steering being exact
+                if want >= 2048:
+                    fl = {'op': 'add_fp', 'cid': h.gen.new_cid(), 'length': want - rng.choice([0, 1, 2047]),
+                          'iso_path': '/ZSTEER' + (';1' if cfg.level < 4 else '')}
+                    if cfg.rr:
+                        fl['rr_name'] = 'zsteer'
+                    h.apply(fl)
     pre_hybrid = len(h.ops)
     # hybridisation directly after a consistency point (nothing else marks the layout dirty), or
     # of an image that was mastered before and opened again
